@@ -309,12 +309,13 @@ def check_cases(rep, work, vh, prelude, cases, tag, timeout):
             m = [x for x in rec["runs"] if x["k"]["f"] == "matchg"]
             rep.sample({"subject": unV(case["input"]), "re": unV(case["vars"][0][1]), "flags": unV(case["vars"][1][1]),
                         "global_matches": [[o.get("offset"), o.get("length"), o.get("string")] for o in outs(m[0]["out"])][:6] if m else None})
-    # second execution of every suspect (determinism; long runs get a ten times larger budget)
-    for case, rec, j, rv in suspects:
+    # second execution of every suspect, in one batch (determinism; long runs get a ten times larger budget)
+    ones = [dict(case, id=i, progs=[case["progs"][j]]) for i, (case, rec, j, rv) in enumerate(suspects)]
+    agains = run_cases(work, vh, ones, tag + "r", budget="20s") if ones else []
+    for (case, rec, j, rv), one, arec in zip(suspects, ones, agains):
         run = rec["runs"][j]
         k = run["k"]
-        one = dict(case, progs=[case["progs"][j]])
-        again = run_cases(work, vh, [one], tag + "r", budget="20s")[0]["runs"][0]
+        again = arec["runs"][0]
         what = show_case(case, k)
         replay = {"family": "c14", "case": one, "actual": run, "expected": rv.get("exp")}
         if rv["v"] == "long":
